@@ -56,7 +56,12 @@ BlockChecks(e, BB, UU) ==
         newpath == PathTo(BB, lab)
         oldpath == PathTo(BB, obs.tip)
         wound == SelectSeq(newpath, LAMBDA x : x \notin Rng(oldpath))
+        \* the ledger rules are checked on chains that start at the genesis block and that the node
+        \* really wound block by block (its by-height index lists exactly the ancestors); a node
+        \* that adopted a chain whose older blocks it never had runs without input checks
         rooted == newpath # <<>> /\ BB[newpath[1]].parent = "" /\ \A x \in Rng(newpath) : x \in DOMAIN UU
+                  /\ (T.tip = lab => [i \in DOMAIN e.st.lc |-> e.st.lc[i]] = newpath)
+                  /\ ~env.detached
         pre(x) == IF BB[x].parent = "" THEN {} ELSE UU[BB[x].parent]
         viol(x) == BlockViolations(pre(x), BB[x].txs, BB[x].h, G)
         atrv(x) == AtrViolations(pre(x), BB[x].txs, BB[x].h, G)
@@ -72,8 +77,15 @@ BlockChecks(e, BB, UU) ==
         c03 == IF adopted /\ rooted
                   /\ Names(InWin(T.utxo, T.tiph, G)) # Names(InWin(UU[lab], T.tiph, G))
                THEN {Bad(e, "C03", "ledger-differs-from-replay")} ELSE {}
-        c02 == IF adopted /\ ~LimbEq(Supply(T.utxo, T.tiph, G, Hdr(e.hdr)), env.issued)
-               THEN {Bad(e, "C02", "supply-changed")} ELSE {}
+        \* the supply equation is evaluated on every observed state, with the header of whatever
+        \* block is the tip then (after a rejected block: the old tip's)
+        tiphdr == IF T.tip = lab THEN Hdr(e.hdr) ELSE IF T.tip \in DOMAIN BB THEN BB[T.tip].hdr ELSE Hdr(e.hdr)
+        c02 == IF T.tip # "" /\ T.tip # "?" /\ (T.tip = lab \/ T.tip \in DOMAIN BB) /\ ~env.detached
+                  /\ [i \in DOMAIN e.st.lc |-> e.st.lc[i]] = PathTo(BB, T.tip)
+                  /\ ~LimbEq(Supply(T.utxo, T.tiph, G, tiphdr), env.issued)
+               THEN {Bad(e, "C02", IF adopted THEN "supply-changed"
+                                   ELSE IF IsPanic(e.res) THEN "supply-changed-before-abort"
+                                   ELSE "supply-changed-by-unaccepted-block")} ELSE {}
         c04 == IF e.res \in {"Invalid", "Exists"} /\ (T.utxo # obs.utxo \/ T.tip # obs.tip)
                THEN {Bad(e, "C04", "rejected-block-changed-ledger")} ELSE {}
         honest == e.x.bedit = "" /\ rooted /\ viol(lab) = {} /\ e.who = "builder"
@@ -121,17 +133,18 @@ WalletChecks(e, st, u, tiph) ==
 TraceInit ==
     /\ l = 1 /\ bad = {} /\ B = <<>> /\ U = <<>> /\ pool = <<>>
     /\ obs = [tip |-> "", tiph |-> 0, utxo |-> {}]
-    /\ env = [g |-> 100, issued |-> LimbZero, nodekey |-> "", reorgs |-> 0]
+    /\ env = [g |-> 100, issued |-> LimbZero, nodekey |-> "", reorgs |-> 0, detached |-> FALSE]
 
 OnReset(e) ==
     /\ B' = <<>> /\ U' = <<>> /\ pool' = <<>>
     /\ obs' = [tip |-> "", tiph |-> 0, utxo |-> {}]
-    /\ env' = [g |-> e.g, issued |-> T3(e.issued), nodekey |-> e.node_key, reorgs |-> 0]
+    /\ env' = [g |-> e.g, issued |-> T3(e.issued), nodekey |-> e.node_key, reorgs |-> 0, detached |-> FALSE]
     /\ bad' = bad
 
 OnBlock(e) ==
     LET lab == e.label
-        rec == [parent |-> e.parent, h |-> e.h, txs |-> [i \in DOMAIN e.txs |-> Tx(e.txs[i])], gt |-> e.gt]
+        rec == [parent |-> e.parent, h |-> e.h, txs |-> [i \in DOMAIN e.txs |-> Tx(e.txs[i])], gt |-> e.gt,
+                hdr |-> Hdr(e.hdr)]
         BB == IF lab \in DOMAIN B THEN B ELSE (lab :> rec) @@ B
         parentU == IF e.parent = "" THEN {} ELSE IF e.parent \in DOMAIN U THEN U[e.parent] ELSE {}
         known == e.parent = "" \/ e.parent \in DOMAIN U
@@ -143,7 +156,8 @@ OnBlock(e) ==
     IN /\ B' = BB /\ U' = UU
        /\ obs' = T
        /\ pool' = P2
-       /\ env' = [env EXCEPT !.reorgs = IF isreorg THEN @ + 1 ELSE @]
+       /\ env' = [env EXCEPT !.reorgs = IF isreorg THEN @ + 1 ELSE @,
+                              !.detached = @ \/ (T.tip \in DOMAIN BB /\ [i \in DOMAIN e.st.lc |-> e.st.lc[i]] # PathTo(BB, T.tip))]
        /\ bad' = bad \cup BlockChecks(e, BB, UU)
                      \cup (IF IsPanic(e.res) THEN {} ELSE PoolChecks(e, e.st, P2, T.utxo, T.tiph))
                      \cup (IF IsPanic(e.res) THEN {} ELSE WalletChecks(e, e.st, T.utxo, T.tiph))
